@@ -49,6 +49,8 @@ def plan(tier, seed):
         specs.append({"kind": "chains", "n": 1500 if tier == "quick" else 20000})
     for i in range(2 if tier == "quick" else 6):
         specs.append({"kind": "regex_reports", "n": 500 if tier == "quick" else 8000})
+    for i in range(2 if tier == "quick" else 8):
+        specs.append({"kind": "big", "n": 10 if tier == "quick" else 150})
     for i in range(2 if tier == "quick" else 6):
         specs.append({"kind": "layer_reports", "n": 1500 if tier == "quick" else 30000})  # C05's driver; C03's report judge
     return specs
@@ -69,6 +71,8 @@ def run_shard(spec, acc):
         c01.exhaustive(spec, acc)
     elif spec["kind"] == "random":
         c01.randomised(spec, acc)
+    elif spec["kind"] == "big":
+        c01.big(spec, acc)
     elif spec["kind"] == "regex_reports":
         regex_reports(spec, acc)
     elif spec["kind"] == "layer_reports":
